@@ -34,6 +34,8 @@ type Document struct {
 	// 脚注/尾注管理器与编号管理器（每个文档独立）
 	footnoteManager  *FootnoteManager
 	numberingManager *NumberingManager
+	// 最近一次 GenerateTOC 使用的配置（供 UpdateTOC 重建目录）
+	tocConfig *TOCConfig
 	// 打开的文档中 styles.xml 关系原有的ID（保存时原样写回；为空表示使用 rId1）
 	stylesRelID string
 }
